@@ -14,26 +14,29 @@ def sh(cmd, **k):
 env = dict(os.environ, PYTHONPATH=os.path.join(wt, 'src'), NUMBA_NUM_THREADS='4')
 # demo with the change (worktree has it applied)
 r_with = sh('/venv/bin/python %s/demo.py' % dst, env=env, cwd='/tmp', timeout=1800)
-sh('git -C %s stash -q' % wt)
+sh('git -C %s diff -- src > /tmp/seedtest_change.diff && git -C %s checkout -- src' % (wt, wt))     # (not git stash: the stash is shared between worktrees)
 r_without = sh('/venv/bin/python %s/demo.py' % dst, env=env, cwd='/tmp', timeout=1800)
-sh('git -C %s stash pop -q' % wt)
+sh('git -C %s apply /tmp/seedtest_change.diff' % wt)
 print('demo with change: rc=%d | without: rc=%d' % (r_with.returncode, r_without.returncode))
 print('  with:', (r_with.stdout + r_with.stderr).strip()[-200:])
 # does the patch apply to /repo?
 a = sh('git -C /repo apply --check %s/patch.diff' % dst)
 if a.returncode != 0:
     print('patch does not apply to /repo:', a.stderr[:300]); sys.exit(2)
-sh('git -C /repo apply %s/patch.diff' % dst)
+VIA_SRC = os.environ.get('SEEDTEST_VIA_SRC') == '1'      # run the checks on the worktree's source instead of patching /repo (used while other jobs read /repo)
+if not VIA_SRC:
+    sh('git -C /repo apply %s/patch.diff' % dst)
 results = {}
 try:
     for c in checks:
-        r = sh('VERIF_NO_EVIDENCE=1 timeout 2400 /verif/check %s' % c)
+        r = sh(('HITEN_SRC=%s/src ' % wt if VIA_SRC else '') + 'VERIF_NO_EVIDENCE=1 timeout 2400 /verif/check %s' % c)
         lines = [l for l in r.stdout.splitlines() if l.startswith(('VIOLATION', 'INCONCLUSIVE', 'KNOWN', '  violated')) or ' quick:' in l]
         results[c] = {'exit': r.returncode, 'lines': [l[:300] for l in lines[:6]]}
         print(c, 'exit', r.returncode)
         for l in lines[:6]: print('   ', l[:260])
 finally:
-    sh('git -C /repo checkout -- .')
+    if not VIA_SRC:
+        sh('git -C /repo checkout -- .')
     print('repo clean:', sh('git -C /repo status --short').stdout.strip() or 'yes')
 meta = json.load(open(os.path.join(dst, 'meta.json')))
 meta['confirmed'] = {'demo_rc_with_change': r_with.returncode, 'demo_rc_without_change': r_without.returncode,
